@@ -218,14 +218,14 @@ pub fn run(ctx: &Ctx) {
     }
     if thorough {
         let u = crate::space::Universe::new("U_ab3{a,b}", &["a", "b"], 3, 0, true);
-        let k3 = lattice_le(0, ALL_BITS, 3);
+        let k3 = lattice_le(0, ALL_BITS, 2);
         par_for(u.len(), |i| {
             let t = u.set(i);
             for c in &k3 {
                 valid_check(ctx, &t, c);
             }
         });
-        ctx.run.space(json!({"universe": u.name, "sets": u.len(), "settings": "Lambda<=3 incl. u and c", "settings_count": k3.len()}));
+        ctx.run.space(json!({"universe": u.name, "sets": u.len(), "settings": "Lambda<=2 incl. u and c", "settings_count": k3.len()}));
         families(ctx);
     }
 }
